@@ -19,7 +19,7 @@ COMMON_ASSUMPTIONS = [
 ]
 
 CORE = ["corpus", "bfs_c3", "bfs_c2", "shp4", "shp3", "shp5", "rand_cw", "rand_cwf"]
-API = ["bfs_a", "rand_cwa"]     # the handle-consuming API inside adoption graphs (make_mut drops a handle too)
+API = ["bfs_a", "rand_cwa", "rt_cwa"]     # the handle-consuming API inside adoption graphs (make_mut drops a handle too)
 DISC_ONLY = {"C01", "C02", "C03", "C05", "C06"}
 
 PROPS = {
@@ -31,22 +31,22 @@ PROPS = {
                 oracles={"C03"}),
     "C04": dict(statement_status="PROVED at the level of allocation events (box released, table storage dropped = links None, value dropped): destroyed_released, freed_iff, and every teardown path inside step_inv. Partial by nature: bytes and the allocator are not modelled; the harness's counting allocator covers them.", streams=["corpus", "bfs_c2", "bfs_w", "rand_cwf", "rand_cwsf", "rand_cwa"],
                 fields={"kind", "freed", "live"}, oracles={"C04"}),
-    "C05": dict(statement_status="PROVED in every configuration incl. inside destructors of a group teardown: upgrade_iff_alive, weak_counts_dead, weak_target_allocated; all members dead before any destructor runs (group_inv: group_heap).", streams=["corpus", "bfs_w", "bfs_n", "rand_cw", "rand_cwf", "rand_cws", "rand_cwk", "rand_cwa", "rand_n"],
+    "C05": dict(statement_status="PROVED in every configuration incl. inside destructors of a group teardown: upgrade_iff_alive, weak_counts_dead, weak_target_allocated; all members dead before any destructor runs (group_inv: group_heap).", streams=["corpus", "bfs_w", "bfs_n", "rand_cw", "rand_cwf", "rand_cws", "rand_cwk", "rand_cwa", "rand_n", "rt_cwa", "rt_cws", "rt_n"],
                 fields={"kind", "res", "obs", "freed", "weak"}, oracles={"C05"}),
     "C06": dict(statement_status="PROVED: counts_exact / strong_count_exact at call boundaries, ci_strong/ci_weak in every configuration (census over registers, values, frames), adopt/unadopt change no counter (adopt_spec, unadopt_spec). Identity (ptr_eq/as_ptr stability) is trivial in the model (ids) and NOT proved: harness only.", streams=CORE + ["bfs_w", "rand_cws"] + API, fields={"kind", "obs", "strong", "weak", "res"},
                 oracles={"C06"}),
-    "C07": dict(statement_status="PROVED: noadopt_is_std_exact (Proofs/StdRefine.v): for every adoption-free history over the modelled API, scripts and panics included, the machine and the specification StdRc (Proofs/StdRc.v) yield the same outcomes, destructor sequence and states. StdRc itself is tied to the real std::rc by the three-way differential run. Not modelled: comparison/formatting/hashing, From<T>/From<Box<T>>, Default, Pin (delegations to T).", streams=["corpus", "bfs_n", "rand_n", "rand_np"],
+    "C07": dict(statement_status="PROVED: noadopt_is_std_exact (Proofs/StdRefine.v): for every adoption-free history over the modelled API, scripts and panics included, the machine and the specification StdRc (Proofs/StdRc.v) yield the same outcomes, destructor sequence and states. StdRc itself is tied to the real std::rc by the three-way differential run. Not modelled: comparison/formatting/hashing, From<T>/From<Box<T>>, Default, Pin (delegations to T).", streams=["corpus", "bfs_n", "rand_n", "rand_np", "rt_n"],
                 fields={"kind", "res", "Dseq", "Dset", "obs", "strong", "weak", "freed", "live"},
                 oracles={"C05", "C06", "C01", "C02", "fault", "C10"}, noadopt_only=True),
     "C08": dict(statement_status="PROVED: tables_consistent (wf, symmetric, both ends alive, Loopback = self) in every configuration; adopt_spec / unadopt_counts (exact deltas, saturating); release_links_TblInv / purge_dying_TblInv (records of a dying object disappear). The ledger form (records change ONLY by adopt/unadopt or death) is the frame theorem of Inv/TablesFrame.v when present.", streams=CORE + ["rand_cwa", "rand_cwo"], fields={"kind", "tables"}, oracles={"C08"}),
     "C09": dict(statement_status="PROVED at the atomic-function level and for Rc::drop as a whole: cycle_refs_perm, orphaned_cycle_perm, drop_strong_perm (two table orders and two oracles), drop_cycle_oracle_indep; plus every Inv theorem quantifies over the oracle. A lockstep simulation of whole runs is not claimed (destructor order inside a group legitimately differs).", streams=["corpus", "shp4", "shp3", "rand_cwf"], fields={"kind", "Dset", "strong", "weak", "obs"}, oracles=set()),
-    "C10": dict(statement_status="PROVED: act_inv (every action incl. nested collections from destructors preserves Inv under act_safe), steps_inv / steps_no_fault (Inv at every re-entry point). The RefCell protocol is an annotation layer (Proofs/Borrow.v, hand transcription of which table is borrowed where): no_borrow_across_user_code / no_borrow_conflict_in_history (conflict free, balanced; negative controls show the skip test and the explicit drop(links) are what avoid the panic); the harness's unexpected-panic oracle ties it to the code.", streams=["corpus", "rand_cws", "rand_cwsf"],
+    "C10": dict(statement_status="PROVED: act_inv (every action incl. nested collections from destructors preserves Inv under act_safe), steps_inv / steps_no_fault (Inv at every re-entry point). The RefCell protocol is an annotation layer (Proofs/Borrow.v, hand transcription of which table is borrowed where): no_borrow_across_user_code / no_borrow_conflict_in_history (conflict free, balanced; negative controls show the skip test and the explicit drop(links) are what avoid the panic); the harness's unexpected-panic oracle ties it to the code.", streams=["corpus", "rand_cws", "rand_cwsf", "rt_cws"],
                 fields={"kind", "Dset", "strong", "weak", "tables", "freed", "res", "obs", "live"},
                 oracles={"C10", "C01", "C02", "C03", "C05", "C06", "fault"}),
     "C11": dict(statement_status="PROVED: unwind_inv, run_inv with panics at any position, run_unw (the panic propagates), step_double_panic (second panic aborts), exec_op_inv (Inv after a panicked call), freed_iff with n_leak (leaked, never released twice). Rust's unwinding rules for Vec/slice/struct drop glue are modelled, not verified.", streams=["corpus", "rand_cwsp", "rand_np"],
                 fields={"kind", "Dset", "strong", "weak", "freed", "obs"},
                 oracles={"C01", "C02", "C05", "C06", "fault"}),
-    "C12": dict(statement_status="PROVED: try_unwrap_strict, make_mut_strict (all branches; cannot fault or abort), act_get_mut/into_raw/from_raw/inc_strong/dec_strong, release_links_TblInv (peers unlinked), run_history_inv from any Inv state (later histories).", streams=["corpus", "bfs_a", "bfs_n", "rand_cwa", "rand_n"],
+    "C12": dict(statement_status="PROVED: try_unwrap_strict, make_mut_strict (all branches; cannot fault or abort), act_get_mut/into_raw/from_raw/inc_strong/dec_strong, release_links_TblInv (peers unlinked), run_history_inv from any Inv state (later histories).", streams=["corpus", "bfs_a", "bfs_n", "rand_cwa", "rand_n", "rt_cwa", "rt_n"],
                 fields={"kind", "tables", "res", "Dset", "freed", "live", "strong", "weak", "obs"},
                 oracles={"C08", "C02", "C01", "fault"}),
     "C13": dict(statement_status="Full statement REFUTED: C13_refuted (known finding D4: taken-out handle kept alive). PROVED part: drop_strong_inv/step_inv under traced_disc: stale records are harmless unless a trace visits an object carrying one; a dying adoptee purges stale records.", streams=["corpus", "rand_cwe", "rand_cwea", "rand_cwo", "bfs_c2", "bfs_a"], fields={"kind", "Dset", "strong", "tables"},
@@ -114,7 +114,7 @@ def _lines_of(name, tier, seed):
 def c07_std(tier, seed):
     """the same adoption-free programs on std::rc::{Rc,Weak} and on cactusref"""
     lines = []
-    for name in ("corpus", "bfs_n", "rand_n", "rand_np"):
+    for name in ("corpus", "bfs_n", "rand_n", "rand_np", "rt_n"):
         lines += [l for l in _lines_of(name, tier, seed) if not re.search(r"\b(adopt|unadopt)\b", l)]
     a = P.run_impl(lines, mode="run")
     b = P.run_impl(lines, mode="std")
